@@ -239,6 +239,13 @@ func suiteCollection(r *Rng, n int, thorough bool, o *Out) {
 				o.emit(op, "panic", "FAIL:panic")
 				break
 			}
+			// every read runs the elements' lazy check(): half of the mutating steps are
+			// not followed by any read, so that effects that only show without one are seen
+			if obs == "" && r.bool() {
+				o.emit("(col quiet "+op[5:], "-", "na")
+				o.stat("quiet")
+				continue
+			}
 			if obs == "" {
 				obs = colDump(sc)
 			}
